@@ -143,6 +143,7 @@ PROPS["C10"] = {
         rapid("admission-machine", "rtpconn", "TestVerif_C10_AdmissionMachine", 500, 4000, quick_shards=4),
         rapid("racing-joins", "rtpconn", "TestVerif_C10_RacingJoins", 300, 2500, race=True, shards=8, race_scope=["/group/", "/unbounded/"]),
         rapid("last-operator-leaves", "rtpconn", "TestVerif_C10_LastOperatorLeaves", 24, 120, shards=8, timeout={"quick": 600, "thorough": 1800}),
+        rapid("slow-credential-join", "rtpconn", "TestVerif_C10_SlowCredentialJoin", 48, 400, shards=8, quick_shards=8, timeout={"quick": 600, "thorough": 1800}),
     ],
     "technique": "model-based stateful property testing (rapid) of admission + forced schedules with fake clients",
     "assumptions": [],
